@@ -90,6 +90,43 @@ fn run_cell(op: &str, builder: &str, n: usize, dotted: bool) -> String {
             drop(v);
             "dropped".into()
         }
+        "clone_from" => {
+            // Clone::clone_from, which a type may specialise: on the value, on the cells themselves, and through
+            // containers that forward it; destinations of the same length, shorter, and of the other shape
+            let src = build(builder, n, dotted);
+            let mut same = v;
+            let mut shorter = build(builder, n / 2 + 1, dotted);
+            let mut other = build(builder, n, !dotted);
+            same.clone_from(&src);
+            shorter.clone_from(&src);
+            if let (Value::Cons(a), Value::Cons(b)) = (&mut other, &src) {
+                a.clone_from(b);
+            }
+            let mut va: Vec<Value> = vec![build(builder, n, dotted), Value::Nil];
+            let vb: Vec<Value> = vec![build(builder, n, !dotted)];
+            va.clone_from(&vb);
+            let mut oa = build(builder, n, dotted).as_cons().cloned();
+            let ob = src.as_cons().cloned();
+            oa.clone_from(&ob);
+            format!("{} {} {} {} {}", same == src, shorter == src, other == src, va == vb, oa == ob)
+        }
+        "serde_type_mismatch" => {
+            // a long list where another kind is expected: the error must be produced (and printed) without recursing
+            // along the list
+            #[derive(serde_derive::Deserialize, Debug)]
+            struct Holder {
+                #[allow(dead_code)]
+                a: String,
+            }
+            let e1 = serde_lexpr::from_value::<u8>(&v).map_err(|e| e.to_string().len());
+            let e2 = serde_lexpr::from_value::<String>(&v).map_err(|e| e.to_string().len()).map(|s| s.len());
+            let e3 = serde_lexpr::from_value::<Option<bool>>(&v).map_err(|e| format!("{:?}", e).len());
+            let e4 = serde_lexpr::from_value::<char>(&v).map_err(|e| e.to_string().len());
+            let alist = Value::list(vec![Value::cons(Value::symbol("a"), v)]);
+            let e5 = serde_lexpr::from_value::<Holder>(&alist).map_err(|e| e.to_string().len()).map(|h| h.a.len());
+            let e6 = serde_lexpr::from_str::<f64>(&list_text(n, dotted)).map_err(|e| e.to_string().len());
+            format!("{} {} {} {} {} {}", e1.is_err(), e2.is_err(), e3.is_err(), e4.is_err(), e5.is_err(), e6.is_err())
+        }
         "datum_clone" => {
             let d = datum_of(n, dotted);
             let e = d.clone();
